@@ -78,7 +78,7 @@ from vlib.result import Collector, RepoRaised, discard, repo_call
 
 ID = 'C16'
 TECHNIQUE = ('property-based testing (Hypothesis): generated layered configs + derivation histories, invariant and '
-             'metamorphic (scaling) oracles, trace-line budget for termination')
+             'metamorphic (scaling) oracles, trace-line budget for termination + coverage-guided fuzzing shards (atheris/libFuzzer driving the same strategy)')
 LEVEL = 'exploration'
 LEVEL_TEXT = ('Generated-input exploration: every shipped non-BurnMan world and thousands (quick) to hundreds of thousands '
               '(thorough) of generated 1-6-layer configurations, each followed through a chain of 1-6 '
